@@ -3,10 +3,8 @@
    through it give the same encoded modules: that half is compared byte for byte by the harness, see
    [cc_inj_same] in Check/CheckIter.v).  Statements only; proofs in Proofs/IterProofs.v.
 
-   The property is FALSE of the code as it is (defect D13, and D12 seen through the component iterator).
-   [known_D13]: a module other than the last whose last local function is skipped; a module without
-   local functions; reset() when the modules' skip lists are not all the same list.
-   [known_D12_comp]: some module has one of the D12 shapes of C25. *)
+   The property holds of the code after the repair of defects D12 and D13 (no hypothesis on the skip
+   map, the script or the shape of the modules). *)
 From Coq Require Import List NArith Bool.
 Import ListNotations.
 From Orca Require Import Util Iter CheckIter IterProofs.
@@ -14,39 +12,18 @@ Local Open Scope N_scope.
 
 (* Full strength: against the specification (concatenation over the modules of the C25 visit lists). *)
 Theorem C26_visits_exact : forall metas skips k probe,
-  metas <> [] -> forallb wf_meta metas = true -> length skips = length metas ->
-  known_D12_comp metas skips probe = false -> known_D13 metas skips k = false ->
+  forallb wf_meta metas = true ->
   ci_run metas skips k probe = expected_trace (expected_comp metas skips) k probe.
 Proof. exact ci_run_exact. Qed.
 Print Assumptions C26_visits_exact.
 
-(* In the words of the property: the traversal is the concatenation of the ModuleIterator traversals
-   ([concat_module_runs]: module m's ModuleIterator run, locations tagged with m).
-   FULL statement (relative to whatever the module iterator does, D12 included) -- NOT proved:
-   only the events up to the first panic can be compared, since a panic ends the component traversal. *)
-Fixpoint upto_panic (l : list ev) : list ev :=
-  match l with [] => [] | EPanic :: _ => [EPanic] | x :: r => x :: upto_panic r end.
-Definition C26_as_module_iterators_full_statement : Prop := forall metas skips,
-  metas <> [] -> forallb wf_meta metas = true -> length skips = length metas ->
-  known_D13 metas skips None = false ->
-  ci_run metas skips None false = upto_panic (concat_module_runs 0 metas skips).
-(* What is proved: the same under the additional hypothesis that no module has a D12 shape (then no run
-   panics and [upto_panic] is the identity).  Missing for the full statement: a simulation of the module
-   cursor inside the component cursor for module runs that deviate from the specification or panic. *)
-Theorem C26_as_module_iterators_partial : forall metas skips,
-  metas <> [] -> forallb wf_meta metas = true -> length skips = length metas ->
-  known_D12_comp metas skips false = false -> known_D13 metas skips None = false ->
+(* In the words of the property, in full: the traversal is the concatenation of the ModuleIterator
+   traversals ([concat_module_runs]: module m's ModuleIterator run, locations tagged with m). *)
+Theorem C26_as_module_iterators : forall metas skips,
+  forallb wf_meta metas = true ->
   ci_run metas skips None false = concat_module_runs 0 metas skips.
 Proof. exact ci_run_as_module_runs. Qed.
-Print Assumptions C26_as_module_iterators_partial.
-(* the full statement at least holds on D12-shaped samples (first function skipped with a shorter / longer
-   successor, an all-skipped module in the middle) *)
-Example C26_as_module_iterators_full_samples :
-  let ok metas skips := evs_eqb (ci_run metas skips None false) (upto_panic (concat_module_runs 0 metas skips)) in
-  ok [[(0, 1); (1, 3)]; [(0, 2)]] [[0]; []] = true /\
-  ok [[(0, 2)]; [(1, 3); (2, 1)]; [(0, 1)]] [[]; [1]; []] = true /\
-  ok [[(0, 2)]; [(0, 1)]; [(0, 1)]] [[]; [0]; []] = true.
-Proof. vm_compute. auto. Qed.
+Print Assumptions C26_as_module_iterators.
 
 (* A ModuleIterator is a ComponentIterator on the component with that single module (no hypothesis). *)
 Theorem C26_single_module : forall mt skip k probe, mi_run mt skip k probe = ci_run [mt] [skip] k probe.
@@ -54,37 +31,30 @@ Proof. exact mi_is_ci. Qed.
 Print Assumptions C26_single_module.
 
 Theorem C26_checker_sound : forall c : ccase,
-  agree26 c = true -> domain26 c = true -> known26 c = [] -> holds26 c = cc_inj_same c.
+  agree26 c = true -> domain26 c = true -> holds26 c = cc_inj_same c.
 Proof. exact checker26_sound_full. Qed.
 Print Assumptions C26_checker_sound.
 
-(* refutations, one per shape of D13 *)
-Theorem C26_refuted_last_function_skipped :
-  ci_run [[(0, 1); (1, 1)]; [(0, 1)]] [[1]; []] None false = [V 0 0 0 true true]
-  /\ expected_trace (expected_comp [[(0, 1); (1, 1)]; [(0, 1)]] [[1]; []]) None false = [V 0 0 0 true true; V 1 0 0 true true].
-Proof. exact D13_last_function_skipped_refuted. Qed.
-Theorem C26_refuted_module_without_functions :
-  ci_run [[(0, 1)]; []] [[]; []] None false = [V 0 0 0 true true; EPanic].
-Proof. exact D13_module_without_functions_refuted. Qed.
-Theorem C26_refuted_reset :
+(* The inputs that refuted the property before the repair of D13 (one per shape). *)
+Example C26_last_function_skipped :
+  ci_run [[(0, 1); (1, 1)]; [(0, 1)]] [[1]; []] None false = [V 0 0 0 true true; V 1 0 0 true true].
+Proof. exact D13_last_function_skipped_now. Qed.
+Example C26_module_without_functions :
+  ci_run [[(0, 1)]; []] [[]; []] None true = [V 0 0 0 true true; EAfter]
+  /\ ci_run [[]; [(0, 1)]; []; [(3, 1)]] [[]; []; []; []] None false = [V 1 0 0 true true; V 3 3 0 true true]
+  /\ ci_run [[]] [[]] (Some 2%nat) true = [EReset; EAfter].
+Proof. exact D13_module_without_functions_now. Qed.
+Example C26_reset :
   ci_run [[(0, 1); (1, 1)]; [(0, 1); (1, 1)]] [[]; [0]] (Some 9%nat) false
-  = [V 0 0 0 true true; V 0 1 0 true true; V 1 1 0 true true; EReset; V 0 1 0 true true; V 1 1 0 true true]
-  /\ expected_trace (expected_comp [[(0, 1); (1, 1)]; [(0, 1); (1, 1)]] [[]; [0]]) (Some 9%nat) false
   = [V 0 0 0 true true; V 0 1 0 true true; V 1 1 0 true true; EReset; V 0 0 0 true true; V 0 1 0 true true; V 1 1 0 true true].
-Proof. exact D13_reset_refuted. Qed.
-Theorem C26_refuted :
-  ~ (forall metas skips k probe, metas <> [] -> forallb wf_meta metas = true -> length skips = length metas ->
-       known_D12_comp metas skips probe = false ->
-       ci_run metas skips k probe = expected_trace (expected_comp metas skips) k probe).
-Proof. exact C26_unconditional_refuted. Qed.
-Print Assumptions C26_refuted.
+Proof. exact D13_reset_now. Qed.
 
-(* non-vacuity: two modules, a skipped first function of equal length, a reset in the middle *)
+(* non-vacuity: two modules, a skipped first function, different skip lists, a reset in the middle *)
 Example C26_nonvacuous :
-  let metas := [[(1, 2); (2, 2); (3, 1)]; [(0, 3)]] in let skips := [[1]; [1]] in
-  metas <> [] /\ forallb wf_meta metas = true /\ length skips = length metas /\
-  known_D12_comp metas skips true = false /\ known_D13 metas skips (Some 1%nat) = false /\
+  let metas := [[(1, 2); (2, 3); (3, 1)]; [(0, 3); (1, 1)]] in let skips := [[1]; [1]] in
+  forallb wf_meta metas = true /\
   expected_trace (expected_comp metas skips) (Some 1%nat) true
-  = [V 0 2 0 false true; V 0 2 1 true true; EReset;
-     V 0 2 0 false true; V 0 2 1 true true; V 0 3 0 true true; V 1 0 0 false true; V 1 0 1 false true; V 1 0 2 true true; EAfter].
-Proof. vm_compute. repeat split; try reflexivity. discriminate. Qed.
+  = [V 0 2 0 false true; V 0 2 1 false true; EReset;
+     V 0 2 0 false true; V 0 2 1 false true; V 0 2 2 true true; V 0 3 0 true true;
+     V 1 0 0 false true; V 1 0 1 false true; V 1 0 2 true true; EAfter].
+Proof. vm_compute. repeat split; reflexivity. Qed.
